@@ -1,16 +1,12 @@
 import Driver.Sexp
 import Pcore.Model.Object
+import Pcore.Model.ObjectSchema
+import Pcore.Generated.ObjectSchema
 /-! Driver op for C17:  `obj (D0 D1 …) (A0 A1 …)`  (syntax in harness/c17/c17.go). -/
 namespace C17
 open Sx Pcore.Object
 
-/-- `\A[a-z_]\w*\z` -/
-def validName (s : String) : Bool :=
-  match s.toList with
-  | [] => false
-  | c :: cs =>
-    (c == '_' || ('a' ≤ c && c ≤ 'z')) &&
-    cs.all (fun c => c == '_' || ('a' ≤ c && c ≤ 'z') || ('A' ≤ c && c ≤ 'Z') || ('0' ≤ c && c ≤ '9'))
+def validName (s : String) : Bool := memberName s
 
 def nameOf : Sexp → Option String
   | .atom s => if validName s then some s else none
@@ -47,16 +43,24 @@ def optOf {α} (f : Sexp → Option α) : Sexp → Option (Option α)
   | .atom "-" => some none
   | e => (f e).map some
 
-def attrOf4 (n t k d : Sexp) (override : Bool) : Option AttrDecl := do
-  let name ← nameOf n
-  let ty ← tyOf t
-  let kind ← kindOf k
-  let dflt ← optOf valOf d
-  pure { name := name, ty := ty, kind := kind, dflt := dflt, override := override }
+/-- trailing flags of an attribute: `o` (override => true), then `f` (final => true) or `nf` (final => false) -/
+def flagsOf : List Sexp → Option (Bool × Option Bool)
+  | [] => some (false, none)
+  | [.atom "o"] => some (true, none)
+  | [.atom "f"] => some (false, some true)
+  | [.atom "nf"] => some (false, some false)
+  | [.atom "o", .atom "f"] => some (true, some true)
+  | [.atom "o", .atom "nf"] => some (true, some false)
+  | _ => none
 
 def attrOf : Sexp → Option AttrDecl
-  | .list [n, t, k, d] => attrOf4 n t k d false
-  | .list [n, t, k, d, .atom "o"] => attrOf4 n t k d true
+  | .list (n :: t :: k :: d :: flags) => do
+    let name ← nameOf n
+    let ty ← tyOf t
+    let kind ← kindOf k
+    let dflt ← optOf valOf d
+    let (override, final) ← flagsOf flags
+    pure { name := name, ty := ty, kind := kind, dflt := dflt, override := override, final := final }
   | _ => none
 
 def eqOf : Sexp → Option EqDecl
@@ -67,9 +71,7 @@ def eqOf : Sexp → Option EqDecl
 
 def serOf : Sexp → Option (Option (List String))
   | .atom "-" => some none
-  | .list (.atom "l" :: ns) => do
-    let l ← ns.mapM nameOf
-    if repeats l then none else pure (some l)
+  | .list (.atom "l" :: ns) => (ns.mapM nameOf).map some
   | _ => none
 
 def eitOf : Sexp → Option (Option Bool)
@@ -78,8 +80,19 @@ def eitOf : Sexp → Option (Option Bool)
   | .atom "f" => some (some false)
   | _ => none
 
-def defOf (i : Nat) : Sexp → Option Def
-  | .list [p, .list as, q, e, s] => do
+/-- a `constants` entry: a value whose inferred type is in the alphabet -/
+def constOf : Sexp → Option (String × Val)
+  | .list [k, v] => do
+    let k' ← nameOf k
+    let v' ← valOf v
+    match v' with
+    | .undef => none
+    | _ => pure (k', v')
+  | _ => none
+
+def defOf5 (i : Nat) (p as q e s : Sexp) (cs : List Sexp) : Option Def :=
+  match as with
+  | .list as => do
     let parent ← optOf Sexp.nat? p
     match parent with
     | some j => if j ≥ i then none
@@ -89,7 +102,15 @@ def defOf (i : Nat) : Sexp → Option Def
     let equality ← eqOf q
     let includeType ← eitOf e
     let serialization ← serOf s
-    pure { parent := parent, attrs := attrs, equality := equality, includeType := includeType, serialization := serialization }
+    let constants ← cs.mapM constOf
+    if repeats (constants.map (·.1)) then none
+    pure { parent := parent, attrs := attrs, equality := equality, includeType := includeType,
+           serialization := serialization, constants := constants }
+  | _ => none
+
+def defOf (i : Nat) : Sexp → Option Def
+  | .list [p, as, q, e, s] => defOf5 i p as q e s []
+  | .list [p, as, q, e, s, .list (.atom "k" :: cs)] => defOf5 i p as q e s cs
   | _ => none
 
 def defsOf : Nat → List Sexp → Option (List Def)
@@ -152,11 +173,19 @@ def valStr : Val → String
 def hashStr (es : List (String × Val)) : String :=
   "(h" ++ String.join (es.map fun (k, v) => " (" ++ k ++ " " ++ valStr v ++ ")") ++ ")"
 
-/-- definitions in order; stops at the first rejected one -/
+def insertEntry (e : String × Val) : List (String × Val) → List (String × Val)
+  | [] => [e]
+  | x :: xs => if e.1 < x.1 then e :: x :: xs else x :: insertEntry e xs
+
+/-- a hash standing as a value is identified by its entries sorted by key (Hash equality ignores the order) -/
+def sortEntries (es : List (String × Val)) : List (String × Val) := es.foldr insertEntry []
+
+/-- definitions in order (schema assertion against the regenerated member table, then the definition proper); stops at
+    the first rejected one -/
 def runDefs : List OType → List Def → List String × Option (List OType)
   | env, [] => ([], some env)
   | env, d :: ds =>
-    match define env d with
+    match defineChecked Pcore.Generated.objectSchema.members env d with
     | .error c => ([c.toString], none)
     | .ok t =>
       let (rs, r) := runDefs (env ++ [t]) ds
@@ -181,7 +210,7 @@ def runActs (env : List OType) : List (Option Obj) → List Action → List Stri
       match env[t]? with
       | none => "notype" :: runActs env (objs ++ [none]) as
       | some ty =>
-        match newNamed ty es (.hash (hashStr es)) with
+        match newNamed ty es (.hash (hashStr (sortEntries es))) with
         | .ok o => "obj" :: runActs env (objs ++ [some o]) as
         | .error c => c.toString :: runActs env (objs ++ [none]) as
     | .get o n =>
